@@ -9,6 +9,7 @@ func ruleC10(prog *Program, rep *Report) {
 	ruleTail(prog, rep, 6, "sen")      // the SEN emitters close containers by overwriting the last separator
 	ruleEscapeDiscipline(prog, rep, "AppendSENString")
 	rulePadBound(prog, rep) // pretty.SEN lays out with the same alignment pads
+	ruleFlatSeparator(prog, rep)
 	rulePoolPut(prog, rep, "sen.Writer", "sen.Parser")
 	ruleEntryParity(prog, rep, "sen.Writer", "sen.Parser")
 	rep.Rules = append(rep.Rules, "A-stale (SEN): sen.Parser and sen.Tokenizer, explored alone, never read control state left by a previous call and never append to a scratch buffer whose content was consumed (a string would come back with a stale prefix)")
